@@ -497,7 +497,8 @@ def msg_candidates():
 
 @scenario("message.set_content", functions=[MSG + ".set_content", MSG + ".get_content"], candidates=msg_candidates)
 def s_set_content(vc):
-    has_ce = vc.case("content_encoding_header", [True, False])
+    ce_kind = vc.case("content_encoding_header", ["token", "absent", "empty_value"])
+    has_ce = ce_kind == "token"
     has_te = vc.case("transfer_encoding_header", [False, True])
     has_cl = vc.case("content_length_header", [False, True])
     ce = vc.sym_bytes("ce", maxlen=12)
@@ -508,7 +509,8 @@ def s_set_content(vc):
     else:
         vc.assume(len(ce) > 0 and all(33 <= c <= 126 for c in ce))
         ce_s = ce.decode("ascii")
-    fields = ([(b"Content-Encoding", ce)] if has_ce else []) + ([(b"Transfer-Encoding", b"chunked")] if has_te else []) + ([(b"Content-Length", b"999")] if has_cl else [])
+    # an empty Content-Encoding value names no coding: same as no header for writing and for reading
+    fields = ([(b"Content-Encoding", ce)] if has_ce else [(b"Content-Encoding", b"")] if ce_kind == "empty_value" else []) + ([(b"Transfer-Encoding", b"chunked")] if has_te else []) + ([(b"Content-Length", b"999")] if has_cl else [])
     fields = [(b"X-First", b"1")] + fields
     msg = mk_response(vc, headers=mk_headers(vc, fields), content=b"old")
     value = vc.sym_bytes("value")
@@ -556,6 +558,7 @@ def s_set_content(vc):
         vc.ensure("read_back.decodes_raw_with_declared_coding", And(len(dec_calls) == 1, vc.eq(dec_calls[0][1], raw) if dec_calls else False, vc.eq(dec_calls[0][2], ce_s) if dec_calls else False))
         vc.ensure("read_back.same_bytes", And(out2.ok, vc.eq(out2.result, value) if out2.ok else False))
     else:
+        vc.ensure("read_back.no_decoder_without_a_coding", not any(c[0] == "decode" for c in log))
         vc.ensure("read_back.same_bytes", And(out2.ok, vc.eq(out2.result, value) if out2.ok else False))
 
 
@@ -700,7 +703,7 @@ def bounded(tier, seed):
                         b.fail("encoding.decode.independent_encoder_stream", {"body": bi, "level": level, "wbits": wbits, "coding": c, "stream_head": stream[:4].hex()}, f"{got!r:.80}")
     # Message level, after each single-call prefix (incl. none)
     for prefix in [None] + ops:
-        for c in ["gzip", "deflate", "br", "zstd", "identity", "GZip", "x-unknown", "utf-8"]:
+        for c in ["gzip", "deflate", "br", "zstd", "identity", "GZip", "x-unknown", "utf-8", "", " ", "\t"]:
             for bi, body in enumerate(bodies):
                 for te in (False, True):
                     reset()
@@ -721,13 +724,17 @@ def bounded(tier, seed):
                         b.fail("message.set_content.text_codec_name_type_error" if c.lower() == "utf-8" else "message.set_content.total", inp, repr(e))
                         continue
                     known = c.lower() in ("gzip", "deflate", "br", "zstd", "identity")
+                    blank = c.strip() == ""       # an empty header value names no coding: the body is stored and read as it is
                     try:
                         back = m.content
                     except ValueError as e:
                         back = repr(e)
                     if back != body:
                         b.fail("message.content_round_trip", inp, f"{back!r:.80}")
-                    if known != ("content-encoding" in m.headers):
+                    if blank:
+                        if m.raw_content != body:
+                            b.fail("message.blank_coding_is_identity", inp, f"{m.raw_content!r:.60}")
+                    elif known != ("content-encoding" in m.headers):
                         b.fail("message.invalid_coding_header_removed", inp, str(m.headers))
                     if te:
                         if "content-length" in m.headers:
